@@ -137,6 +137,18 @@ def c33Run (op : String) (ticks : List String) : Option String :=
   | "kfirst_map" => do
     let h ← ticks.mapM parsePairs
     pure ("|".intercalate ((prefixes h).map fun p => showPairs (sortPairs (firstAfter p))))
+  | "kfirst_filter" => do
+    let h ← ticks.mapM parsePairs
+    pure ("|".intercalate ((prefixes h).map fun p =>
+      showPairs (sortPairs ((firstAfter p).filter fun kv => kv.2 > 0))))
+  | "kfirst_fmap" => do
+    let h ← ticks.mapM parsePairs
+    pure ("|".intercalate ((prefixes h).map fun p =>
+      showPairs (sortPairs ((firstAfter p).filterMap fun kv => if kv.2 % 2 == 0 then some (kv.1, kv.2 * 10) else none))))
+  | "vcount_map" => do
+    let h ← ticks.mapM parsePairs
+    pure ("|".intercalate ((prefixes h).map fun p =>
+      showPairs (sortPairsNat ((keyedAfter 0 (fun c (_ : Int) => c + 1) p).map fun kv => (kv.1, kv.2 % 2)))))
   | "kfirst_entries" => do
     let h ← ticks.mapM parsePairs
     pure ("|".intercalate ((List.range h.length).map fun i =>
